@@ -35,7 +35,7 @@ ASSUMPTIONS = [
     "amounts have <= 11 decimals so sums are compared exactly",
 ]
 SETTINGS: Dict[str, Dict[str, Any]] = {
-    "quick": {"cases": 1500, "cli_cases": 12, "budget_s": 50, "minimums": {"must_fail_observed": 150, "sell_all_observed": 300, "multi_lot_events": 1000, "cli_runs": 6}},
+    "quick": {"cases": 1500, "cli_cases": 48, "budget_s": 50, "minimums": {"must_fail_observed": 150, "sell_all_observed": 300, "multi_lot_events": 1000, "cli_runs": 6}},
     "thorough": {"cases": 80000, "cli_cases": 300, "budget_s": 420, "minimums": {"must_fail_observed": 8000, "sell_all_observed": 15000, "multi_lot_events": 50000, "cli_runs": 150}},
 }
 
